@@ -621,6 +621,9 @@ class Tr:
             a, _ = self.e(args[2], want='vec')
             c, _ = self.e(args[1], want='T')
             return '(vmap (fun y_ => if isnan y_ then %s else y_) %s)' % (c, a), 'vec'
+        if name == 'isfinite' and len(args) == 1:
+            a, _ = self.e(args[0], want='T')
+            return '(isfin %s)' % a, 'B'
         if name == 'isnan' and len(args) == 1:
             a, ta = self.e(args[0])
             if ta == 'vec':
